@@ -38,6 +38,7 @@ pub const EDIT_CLASSES: &[&str] = &[
     "add_validator",
     "change_validator",
     "validator_message",
+    "validator_min_zero",
     "add_event",
     "remove_event",
     "event_payload_type",
@@ -260,7 +261,7 @@ pub fn gen_edit(r: &mut Rng, class: &str, m: &Model) -> Option<(Model, String)> 
             }
         }
         "add_field" | "remove_field" | "rename_field" | "field_type" | "field_option_toggle" | "field_pub_toggle"
-        | "field_serde_rename" | "field_serde_rename_identity" | "struct_rename_all" | "field_serde_skip" | "add_validator" | "change_validator" | "validator_message" => {
+        | "field_serde_rename" | "field_serde_rename_identity" | "struct_rename_all" | "field_serde_skip" | "add_validator" | "change_validator" | "validator_message" | "validator_min_zero" => {
             let mut names = serde_struct_names(m, true);
             if class == "field_serde_rename_identity" {
                 // only where a rename_all would otherwise transform the (multi-word) name
@@ -336,6 +337,23 @@ pub fn gen_edit(r: &mut Rng, class: &str, m: &Model) -> Option<(Model, String)> 
                 "field_serde_skip" => {
                     s.fields[k].skip = true;
                     desc = format!("#[serde(skip)] on {}.{}", n, s.fields[k].name);
+                }
+                "validator_min_zero" => {
+                    // `length(min = 0, max = N)` <-> `length(max = N)`: the same set of accepted values,
+                    // not the same generated text (`.min(0).max(N)` vs `.max(N)`)
+                    let cands: Vec<usize> = live
+                        .iter()
+                        .copied()
+                        .filter(|k| s.fields[*k].validate.as_deref().map(|v| v.starts_with("length(min = 0, ") || v.starts_with("length(max")).unwrap_or(false))
+                        .collect();
+                    if cands.is_empty() {
+                        return None;
+                    }
+                    let k = *r.pick(&cands);
+                    let old = s.fields[k].validate.clone().unwrap_or_default();
+                    let new = if let Some(rest) = old.strip_prefix("length(min = 0, ") { format!("length({}", rest) } else { old.replacen("length(", "length(min = 0, ", 1) };
+                    desc = format!("validator on {}.{}: {:?} -> {:?}", n, s.fields[k].name, old, new);
+                    s.fields[k].validate = Some(new);
                 }
                 "validator_message" => {
                     // only the text of the error message changes (or a message appears / goes):
